@@ -28,7 +28,10 @@ RULE = ("static: one evaluation = the regenerated call graph of the whole workin
         "generator after identical math/rand seeding + search of the wall-clock window for a math/rand seed that "
         "reproduces the value), c19.hs (req_pq nonce on the wire in two real key exchanges after identical seeding), "
         "c19.reseed (draw after NewMTProto, search for the clock seed), c19.xproc (one draw in each of two fresh "
-        "processes); distinct = distinct operation lines")
+        "processes), c19.hist (histories: MakeGAB with moduli of 1..4096 bits, g in {0, 1, -1, 2, 3, 7, int32 extremes}, "
+        "g_a = 0 / 1 / > dh_prime, nonce draws in between, THEN ordinary draws with crypto/rand.Reader wrapped by a counting "
+        "reader: bytes read from the OS source per draw >= width of the secret, values pairwise different, largest value "
+        "within 24 bits of the width); distinct = distinct operation lines")
 
 C19MOD = os.path.join(vlib.VERIF, "harness-c19")
 C19BIN = os.path.join(vlib.BUILD, "c19graph")
@@ -97,6 +100,10 @@ def run(ctx):
         "value-level flow is not tracked beyond the intra-procedural def-use slices of the secret-carrying fields: a "
         "secret derived from crypto/rand output and then weakened arithmetically is not seen",
         "the dynamic experiments can show reproducibility, never unpredictability",
+        "c19.hist wraps crypto/rand.Reader, for the duration of one ordinary draw, by a reader of the harness that counts "
+        "the bytes and forwards every Read to the operating system's reader (crypto/rand.Read and crypto/rand.Int read "
+        "through that variable); the widths it judges by are the protocol's: nonce 128 bits, new_nonce 256 bits, the "
+        "exponents b and a 2048 bits",
     ]
     ctx.c19_diag = []
     with vlib.Lock("c19-run"):
